@@ -50,28 +50,46 @@ example : noCycleFromRoot ⟨some "R", [⟨"R", [⟨"a", .node "A"⟩]⟩, ⟨"A
 
 /-! ## 2. Walks of validated directions terminate, with a bound on processor executions -/
 
+/-- **dfs_sound_nodup.**  Equivalently: every path below a root edge target is duplicate-free and, by the
+    pigeonhole principle, has at most `N` (= number of nodes of the direction) steps. -/
+theorem dfs_sound_nodup (g : DirGraph) (h : noCycleFromRoot g = true) (r : String) (n : Node)
+    (hr : g.root = some r) (hn : g.find r = some n) (e : Edge) (he : e ∈ n.edges) (t : String)
+    (ht : e.target = .node t) (p : List String) (hp : IsPath g (t :: p)) :
+    (t :: p).Nodup ∧ p.length ≤ g.nodes.length :=
+  ⟨path_nodup g _ p t hp (dfs_sound g h r n hr hn e he t ht),
+   path_length_le g _ p t hp (dfs_sound g h r n hr hn e he t ht)⟩
+
 /-- **req_walk_terminates.**  For a request direction the loader validated, the walk from the root with
-    any output oracle halts: with every fuel ≥ `dfsFuel + 1` it never reports `.fuel`, and it executes at
-    most `dirBound` = 1 + D + D² + … processors. -/
+    any output oracle halts: with every fuel ≥ `N + 1` (N = number of nodes) it never reports `.fuel`, and
+    it executes at most `dirBound` = 1 + D + D² + … + D^N processors (D = largest out-degree). -/
 theorem req_walk_terminates (f : Flow) (o : Oracle) (hv : validateDirection .req f.req = .ok ())
-    (r : String) (hr : f.req.root = some r) :
-    ∃ F B, ∀ fuel, F ≤ fuel → (walk f o .req fuel r).err ≠ some .fuel ∧ steps (walk f o .req fuel r).trace ≤ B :=
-  ⟨dfsFuel f.req + 1, dirBound f.req, fun fuel hf => walk_root_ok f o .req hv hr fuel hf⟩
+    (r : String) (hr : f.req.root = some r) (fuel : Nat) (hf : f.req.nodes.length + 1 ≤ fuel) :
+    (walk f o .req fuel r).err ≠ some .fuel ∧
+    steps (walk f o .req fuel r).trace ≤ bnd (maxDeg f.req) (f.req.nodes.length + 1) :=
+  walk_root_ok f o .req hv hr fuel hf
 
 /-- **resp_walk_from_root_terminates.** -/
 theorem resp_walk_from_root_terminates (f : Flow) (o : Oracle) (hv : validateDirection .res f.res = .ok ())
-    (r : String) (hr : f.res.root = some r) :
-    ∃ F B, ∀ fuel, F ≤ fuel → (walk f o .res fuel r).err ≠ some .fuel ∧ steps (walk f o .res fuel r).trace ≤ B :=
-  ⟨dfsFuel f.res + 1, dirBound f.res, fun fuel hf => walk_root_ok f o .res hv hr fuel hf⟩
+    (r : String) (hr : f.res.root = some r) (fuel : Nat) (hf : f.res.nodes.length + 1 ≤ fuel) :
+    (walk f o .res fuel r).err ≠ some .fuel ∧
+    steps (walk f o .res fuel r).trace ≤ bnd (maxDeg f.res) (f.res.nodes.length + 1) :=
+  walk_root_ok f o .res hv hr fuel hf
+
+/-- **walk_fuel_irrelevant.**  A walk that ended without `.fuel` is final: more fuel gives the same result
+    (so "fuel" is only a device to make the walker total; `.fuel` for every fuel = non-termination). -/
+theorem walk_fuel_irrelevant (f : Flow) (o : Oracle) (d : Dir) (fuel : Nat) (k : String)
+    (h : (walk f o d fuel k).err ≠ some .fuel) (m : Nat) : walk f o d (fuel + m) k = walk f o d fuel k :=
+  walk_stable_add f o d fuel k h m
 
 /-- **walk_terminates_after_fix.**  With the proposed fix (cycle DFS from EVERY node) every entry point
     is safe, in particular the short-circuit continuation. -/
 theorem walk_terminates_after_fix (f : Flow) (o : Oracle) (d : Dir) (hs : noCycleAnywhere (f.dir d) = true)
-    (k : String) (fuel : Nat) (hf : dfsFuel (f.dir d) + 1 ≤ fuel) :
+    (k : String) (fuel : Nat) (hf : depthOf (f.dir d) ≤ fuel) :
     (walk f o d fuel k).err ≠ some .fuel ∧ steps (walk f o d fuel k).trace ≤ dirBound (f.dir d) :=
   walk_any_ok f o d hs k fuel hf
 
-/-- non-vacuity of the hypotheses of `req_walk_terminates`: a validated direction with a root -/
+/-- non-vacuity of the hypotheses of `req_walk_terminates`: a validated direction with a root; the walk
+    `A → B` executes 2 processors, within the bound 1 + 1 + 1 -/
 example : validateDirection .req ⟨some "A", [⟨"A", [⟨"a", .node "B"⟩]⟩, ⟨"B", []⟩]⟩ = .ok () :=
   vOk_ok (by decide)
 
